@@ -113,6 +113,47 @@ def generate(ctx):
             yield "decode_walk", dict(gcase, start=1, strand=s, fast=False, table=["const", list(p)], slack=rng.choice([0, 1, 4]))
     ctx.exhausted["tables24xpatterns15"] = True
 
+    # long messages (word / limb boundaries at 64, 128 ... bits; beyond 2100 bits the int<->str trap bites),
+    # buffer twins (raw bytes of a short int64 message re-read as a uint8 message) and edit sequences (G2)
+    for _ in range(ctx.pick(1, 3)):
+        k = rng.choice([1, 2])
+        acc = G.complete(k) if rng.random() < 0.5 else gens.arc_graph(rng, k)
+        if acc is not None:
+            yield "encode", dict(gens.graph_case(acc, k), start=int(rng.choice(G.live_vertices(acc))), bits=gens.message(rng, 8, "long")[0],
+                                 fast=False, table=None, fam="long", dtype="int64")
+    for _ in range(ctx.pick(40, 300)):
+        k = rng.choice([1, 2, 3])
+        acc = gens.arc_graph(rng, k)
+        if acc is None:
+            continue
+        start = int(rng.choice(G.live_vertices(acc)))
+        gcase = gens.graph_case(acc, k)
+        kind = rng.choice(["leading-zero-words", "twin", "wide"])
+        if kind == "leading-zero-words":
+            z = rng.choice([63, 64, 65, 127, 128, 129, 192, 256])
+            bits = [0] * z + [rng.randint(0, 1) for _ in range(rng.choice([1, 4, 7, 30, 64, 70]))]
+            yield "encode", dict(gcase, start=start, bits=bits, fast=False, table=rand_table_spec(rng, 0.5), fam=kind, dtype="int64")
+        elif kind == "wide":
+            bits, _c = gens.message(rng, rng.choice([100, 200, 400]))
+            yield "encode", dict(gcase, start=start, bits=bits, fast=False, table=rand_table_spec(rng, 0.5), fam=kind, dtype=rng.choice(["int64", "uint8", "list"]))
+        else:
+            short = [rng.randint(0, 1) for _ in range(rng.randint(1, 6))]
+            raw = list(np.array(short, dtype="int64").tobytes())
+            pair = [(raw, "uint8"), (short, "int64")]
+            rng.shuffle(pair)
+            for b, dt in pair:
+                yield "encode", dict(gcase, start=start, bits=b, fast=False, table=None, fam=kind, dtype=dt)
+    for _ in range(ctx.pick(25, 250)):
+        k = rng.choice([1, 2, 2, 3])
+        fast = rng.random() < 0.4
+        states = []
+        for _s in range(rng.randint(2, 4)):
+            a = gens.arc_graph(rng, k, forbid3=fast)
+            if a is not None:
+                states.append(dict(arcs=G.acc_to_hex(a), start=int(rng.choice(G.live_vertices(a)))))
+        if len(states) >= 2:
+            yield "edit_sequence", dict(k=k, fast=fast, states=states, table=rand_table_spec(rng, 0.4),
+                                        msgs=[gens.message(rng, 40)[0] for _ in states])
     ks = ctx.pick([1, 2, 2, 3, 3, 4], [1, 2, 2, 3, 3, 4, 4, 5, 6])
     max_len = ctx.pick(64, 256)
     for gi in range(ctx.pick(200, 1500)):
@@ -187,6 +228,34 @@ def check_encode(ctx, case):
     ctx.done("encode", case, nontrivial)
 
 
+def check_edit_sequence(ctx, case):
+    """G2: one accessor object overwritten in place between calls; the contracts judge every encode / decode against the
+    reference coder on the *current* content of that object."""
+    dsw = import_dsw()
+    k, fast = case["k"], case["fast"]
+    shuf = table_of(case["table"], k)
+    live = G.hex_to_acc(k, case["states"][0]["arcs"])
+    for i, st in enumerate(case["states"]):
+        live[...] = G.hex_to_acc(k, st["arcs"])
+        bits = case["msgs"][i]
+        n_live = int((G.out_degrees(live) > 0).sum())
+        out = monitored(dsw.encode, encode_budget(len(bits), n_live), np.array(bits, dtype=int), live, st["start"], is_faster=fast, shuffles=shuf)
+        if _report(ctx, out, "encode after the accessor object was overwritten in place (state %d)" % i):
+            break
+        if out.kind != "ok":
+            ctx.fail("encode-" + out.kind, "state %d: encode %s" % (i, out.describe()))
+            break
+        dec = monitored(dsw.decode, decode_budget(len(out.value), len(bits)), out.value, len(bits), live, st["start"], is_faster=fast, shuffles=shuf)
+        if _report(ctx, dec, "decode after the accessor object was overwritten in place (state %d)" % i):
+            break
+        if dec.kind != "ok" or not bits_equal(dec.value, bits):
+            ctx.fail("decode-after-edit", "state %d: decode %s, expected %s" % (i, dec.describe(), bits))
+            break
+        ctx.evaluations += 1
+    ctx.cls("edit sequences (same accessor object overwritten in place)")
+    ctx.done("edit_sequence", case, True)
+
+
 def check_decode_walk(ctx, case):
     dsw = import_dsw()
     k, start, strand, fast = case["k"], case["start"], case["strand"], case["fast"]
@@ -209,7 +278,9 @@ def check_decode_walk(ctx, case):
         if any(d > 1 and r == 0 for d, r in digits[-1:]):
             ctx.cls("decode|trailing zero digit")
     before = contracts.EVALS["decode.ensure.bits_are_reference"]
-    out = monitored(dsw.decode, decode_budget(len(strand), L), strand, L, acc, start, is_faster=fast, shuffles=shuf)
+    width = ctx.rng.choice([int, int, int, np.int64, np.uint16, np.uint64])(L) if L < 60000 else L
+    out = monitored(dsw.decode, decode_budget(len(strand), L), strand, width, acc, start, is_faster=fast, shuffles=shuf)
+    ctx.cls("decode|width type %s" % type(width).__name__)
     if contracts.EVALS["decode.ensure.bits_are_reference"] == before and out.kind == "ok":
         ctx.fail("contract-bypassed", "decode returned without evaluating its postcondition")
     if not _report(ctx, out, "decode"):
@@ -242,7 +313,7 @@ def check_repo_tests(ctx, case):
     ctx.done("repo_tests", case, n > 0)
 
 
-CHECKS = {"encode": check_encode, "decode_walk": check_decode_walk, "repo_tests": check_repo_tests}
+CHECKS = {"edit_sequence": check_edit_sequence, "encode": check_encode, "decode_walk": check_decode_walk, "repo_tests": check_repo_tests}
 
 
 def floors(agg, tier):
@@ -254,7 +325,8 @@ def floors(agg, tier):
         out.append("decode contract evaluated %d times" % m.get("contract-evaluations:decode.ensure.bits_are_reference", 0))
     for name, need in (("encode|nontrivial", 500), ("decode|nontrivial", 300), ("encode|radix3|normal", 100),
                        ("encode|radix4|fast", 100), ("encode|radix2|fast", 100), ("encode|radix1|normal", 100),
-                       ("decode|trailing zero digit", 50), ("decode|fast|table1", 50)):
+                       ("decode|trailing zero digit", 50), ("decode|fast|table1", 50), ("decode|width type uint16", 100),
+                       ("edit sequences (same accessor object overwritten in place)", 100)):
         if c.get(name, 0) < need:
             out.append("%s observed %d < %d" % (name, c.get(name, 0), need))
     if m.get("contract-evaluations-inside-repo-tests", 0) < (4 if tier == "quick" else 1000):
